@@ -4,8 +4,6 @@ From Wharf Require Import Base.Prelude Base.BlocksLemmas Sig.Scan.
 
 Section ScanProofs.
   Context {A : Type}.
-  Variable bs : nat.
-  Hypothesis bs_pos : 0 < bs.
   Variable maxE : nat.
 
   (** no more than [maxE] consecutive empty chunks ((0, nil) reads); [budget] = how many more
@@ -32,7 +30,9 @@ Section ScanProofs.
     exists d e rd', rd_read space rd = (d, e, rd') /\ d <> [] /\ length d <= space /\
       d ++ concat (rchunks rd') = concat (rchunks rd) /\ reof rd' = reof rd /\
       length (rchunks rd') <= length (rchunks rd) /\
-      ((e = None /\ (runs_ok maxE r -> runs_ok maxE (rchunks rd'))) \/ (e = Some REof /\ rchunks rd' = [])).
+      ((e = None /\ (runs_ok maxE r -> runs_ok maxE (rchunks rd')) /\
+        (Forall (fun c : list A => c <> []) r -> Forall (fun c : list A => c <> []) (rchunks rd'))) \/
+       (e = Some REof /\ rchunks rd' = [])).
   Proof.
     intros E Hc Hs. unfold rd_read. rewrite E. destruct c as [|x c']; [congruence|].
     set (c := x :: c') in *. set (n := Nat.min space (length c)).
@@ -48,17 +48,17 @@ Section ScanProofs.
         cbn [rchunks reof concat length].
         split; [reflexivity|]. split; [exact Hd|]. split; [exact Hl|].
         split; [rewrite Hall, !app_nil_r; reflexivity|]. split; [reflexivity|]. split; [lia|].
-        destruct (reof rd); [right; split; reflexivity|left; split; [reflexivity|intros _; exact I]].
+        destruct (reof rd); [right; split; reflexivity|left; split; [reflexivity|split; [intros _; exact I|intros _; constructor]]].
       + exists (firstn n c), None, (mkrd (c2 :: r2) (reof rd)).
         cbn [rchunks reof concat length].
         split; [reflexivity|]. split; [exact Hd|]. split; [exact Hl|].
         split; [rewrite Hall; reflexivity|]. split; [reflexivity|]. split; [lia|].
-        left. split; [reflexivity|intros X; exact X].
+        left. split; [reflexivity|split; intros X; exact X].
     - exists (firstn n c), None, (mkrd ((y :: rest) :: r) (reof rd)).
       cbn [rchunks reof concat length].
       split; [reflexivity|]. split; [exact Hd|]. split; [exact Hl|].
       split; [rewrite <- Esk, app_assoc, firstn_skipn; reflexivity|]. split; [reflexivity|]. split; [lia|].
-      left. split; [reflexivity|intros X; exact X].
+      left. split; [reflexivity|split; [intros X; exact X|intros X; constructor; [discriminate|exact X]]].
   Qed.
 
   Lemma read_loop_unfold k space (rd : reader A) :
@@ -93,7 +93,7 @@ Section ScanProofs.
       + cbn [runs_ok] in Hr. contradiction.
       + destruct (rd_read_data space rd (x :: c') r E ltac:(congruence) Hs) as (d & e & rd' & Hrd & Hd & Hl & Hc & _ & Hn & Hcase).
         rewrite Hrd. rewrite E in Hc, Hn. cbn [runs_ok] in Hr.
-        destruct Hcase as [[He Hro]|[He Hnil]]; subst e.
+        destruct Hcase as [[He [Hro _]]|[He Hnil]]; subst e.
         * destruct d as [|y d']; [congruence|]. exists (y :: d'), None, rd'.
           repeat split; try assumption. left. repeat split; [congruence|]. apply Hro. exact Hr.
         * exists d, (Some REof), rd'. repeat split; try assumption. right. split; [reflexivity|assumption].
@@ -106,13 +106,15 @@ Section ScanProofs.
         repeat split; try assumption. lia.
       + destruct (rd_read_data space rd (x :: c') r E ltac:(congruence) Hs) as (d & e & rd' & Hrd & Hd & Hl & Hc & _ & Hn & Hcase).
         rewrite Hrd. rewrite E in Hc, Hn. cbn [runs_ok] in Hr.
-        destruct Hcase as [[He Hro]|[He Hnil]]; subst e.
+        destruct Hcase as [[He [Hro _]]|[He Hnil]]; subst e.
         * destruct d as [|y d']; [congruence|]. exists (y :: d'), None, rd'.
           repeat split; try assumption. left. repeat split; [congruence|]. apply Hro. exact Hr.
         * exists d, (Some REof), rd'. repeat split; try assumption. right. split; [reflexivity|assumption].
   Qed.
 
   (** ---- one iteration of Scan's loop with splitfunc and cap = bs ---- *)
+  Variable bs : nat.
+  Hypothesis bs_pos : 0 < bs.
   Notation iter := (scan_iter bs maxE (@splitfunc A bs)).
 
   Lemma sc_eta (s : sc A) : s = mksc (sstart s) (swin s) (serror s) (sempties s).
